@@ -1221,19 +1221,35 @@ def rule_shape(r):
     return 'R(' + ','.join(k + ':' + rule_shape(s)[2:-1] for k, s in r['body']) + ')'
 
 
-def selector_behind_cache_pattern(tree, nvars):
-    """the shape the recorded finding KF-C12-selector-behind-result-cache needs: an alternative branch S that has a
-    refinement (so the else-if that holds S has a conclusion selector as its right operand) and whose own condition does
-    not read every variable of the rule (so two matches can agree on S's variables and the second is replayed from the
-    else-if's result cache, which stores the truth value only, not the selected conclusion)"""
-    def walk(r):
+def applicable_path(tree, tag, e):
+    """the rule `tag` is applicable to the assignment e as far as its own place in the tree says: its condition and the
+    conditions of the rules it refines hold, the conditions of the rules it is an alternative to do not (whether a rule
+    further out replaces its conclusion is not looked at)"""
+    def walk(r, ctx):
+        h = O.holds(r['cond'], e)
+        if r['tag'] == tag:
+            return ctx and h
         for k, sub in r['body']:
-            if k == 'alt' and any(k2 == 'ref' for k2, _ in sub['body']) and len(O.vars_of(sub['cond'])) < nvars:
-                return True
-            if walk(sub):
-                return True
+            t = walk(sub, ctx and (h if k == 'ref' else not h))
+            if t is not None:
+                return t
+        return None
+    return bool(walk(tree, True))
+
+
+def overridden_selection_pattern(tree, missing, assignments, final, nvars):
+    """the shape the recorded finding KF-C12-selector-remembers-an-overridden-conclusion needs, for one missing result
+    (i, j, tag): the conclusion of `tag` does not mention every variable, and there is an assignment that agrees with the
+    missing result on the variables it does mention for which `tag` was applicable at its own place in the tree but a
+    refinement further out replaced it (the selector below remembered the binding as concluded all the same)"""
+    i, j, tag = missing
+    if i is not None and (j is not None or nvars == 1):
         return False
-    return walk(tree)
+    for (a, b) in assignments:
+        if (i is None or a == i) and (j is None or b == j):
+            if final[(a, b)] != tag and applicable_path(tree, tag, {0: assignments[(a, b)][0], 1: assignments[(a, b)][1]}):
+                return True
+    return False
 
 
 def rdr_reference(rule, e):
@@ -1272,6 +1288,35 @@ def run_rdrtree_case(p):
     (O.enable_caching if p.get('caching', True) else O.disable_caching)()
     tree = gen_rule_tree(rng, p.get('rules', 5), p.get('depth', 2), nv)
     shape = rule_shape(tree)
+    if nv > 1 and p.get('subset'):
+        # conclusions over different sets of variables: a conclusion that does not mention a variable is drawn once per
+        # binding of the variables it does mention, so the results are compared as sets
+        rng2 = random.Random(p['seed'] * 7 + 1)
+
+        def pick(r):
+            r['vars'] = rng2.choice([(0, 1), (0, 1), (0,), (1,)])
+            for _, sub in r['body']:
+                pick(sub)
+        pick(tree)
+        shape += ':subset'
+    outsider = O.Item('outside', 99)
+    # an instance of the concluded type the user made: it is in the registry and no rule concludes it
+    O.Built(a=outsider, b=None, tag='user')
+
+    def key(g):
+        def ix(d, o):
+            return None if o is None else (d.index(o) if o in d else 'outside')
+        return (ix(d0, g.a), ix(d1, g.b), g.tag) if nv > 1 else (ix(d0, g.a), g.tag)
+
+    def rule_of(tag, r=None):
+        r = r or tree
+        if r['tag'] == tag:
+            return r
+        for _, sub in r['body']:
+            t = rule_of(tag, sub)
+            if t is not None:
+                return t
+        return None
     try:
         x = let(type_=O.Item, domain=d0)
         xs = [x] + ([let(type_=O.Item, domain=d1)] if nv > 1 else [])
@@ -1279,19 +1324,31 @@ def run_rdrtree_case(p):
             q = an(entity(v := let(type_=O.Built), O.build(tree['cond'], xs)))
 
         def emit(r):
-            Add(v, O.Built(a=xs[0], b=(xs[1] if nv > 1 else None), tag=r['tag']))
+            vs = r.get('vars', (0, 1))
+            Add(v, O.Built(a=(xs[0] if 0 in vs else None), b=(xs[1] if nv > 1 and 1 in vs else None), tag=r['tag']))
             for k, sub in r['body']:
                 with (refinement if k == 'ref' else alternative)(O.build(sub['cond'], xs)):
                     emit(sub)
         with rule_mode(q):
             emit(tree)
         if nv > 1:
-            got = sorted((d0.index(g.a), d1.index(g.b), g.tag) for g in q.evaluate())
-            want = sorted((i, j, rdr_reference(tree, {0: a, 1: b})) for i, a in enumerate(d0) for j, b in enumerate(d1)
-                          if rdr_reference(tree, {0: a, 1: b}) is not None)
+            want = []
+            for i, a in enumerate(d0):
+                for j, b in enumerate(d1):
+                    t = rdr_reference(tree, {0: a, 1: b})
+                    if t is not None:
+                        vs = rule_of(t).get('vars', (0, 1))
+                        want.append((i if 0 in vs else None, j if 1 in vs else None, t))
         else:
-            got = sorted((d0.index(g.a), g.tag) for g in q.evaluate())
-            want = sorted((i, rdr_reference(tree, {0: o})) for i, o in enumerate(d0) if rdr_reference(tree, {0: o}) is not None)
+            want = [(i, rdr_reference(tree, {0: o})) for i, o in enumerate(d0) if rdr_reference(tree, {0: o}) is not None]
+        norm = (lambda l: sorted(set(l), key=repr)) if p.get('subset') else (lambda l: sorted(l, key=repr))
+        want = norm(want)
+        got = want
+        for n in range(p.get('evals', 2)):          # the same answer on every evaluation
+            got = norm(key(g) for g in q.evaluate())
+            if got != want:
+                shape += '' if n == 0 else ':re-evaluation'
+                break
     except Exception as e:  # noqa
         return {'shape': shape, 'exception': repr(e), 'trace': traceback.format_exc(limit=5), 'signature_kind': shape + ':exception'}
     finally:
@@ -1300,8 +1357,11 @@ def run_rdrtree_case(p):
         def show(r):
             return {'cond': repr(r['cond']), 'tag': r['tag'], 'body': [(k, show(s_)) for k, s_ in r['body']]}
         kind = shape
-        if p.get('caching', True) and selector_behind_cache_pattern(tree, nv):
-            kind = 'cache-on:refined-alternative-replayed-from-the-result-cache'
+        if p.get('subset') and nv > 1 and not [g for g in got if g not in want]:
+            asg = {(i, j): (a, b) for i, a in enumerate(d0) for j, b in enumerate(d1)}
+            final = {k: rdr_reference(tree, {0: a, 1: b}) for k, (a, b) in asg.items()}
+            if all(overridden_selection_pattern(tree, m, asg, final, nv) for m in want if m not in got):
+                kind = 'subset:only-missing:each-missing-conclusion-was-selected-and-overridden-for-the-same-binding'
         return {'shape': shape, 'tree': show(tree), 'got': got, 'want': want, 'signature_kind': kind}
     return None
 
